@@ -62,5 +62,41 @@ def oracle_validation(src, seed, n_probes, shard_env, py, shard_main):
     return out
 
 
-def sensitivity(src, seed, jobs, shard_env, py, shard_main):
-    return {"summary": {}, "errors": []}
+def sensitivity(src, seed, mini_search, shards=16, runs=150, only=None):
+    """Planted defects: copy the source tree outside /repo and /verif, apply one mutant, run a small
+    seeded search against the copy. Kills/total go into the evidence; the exit code is not affected."""
+    from sim import mutants
+
+    out = {"mutants": [], "errors": [], "summary": {}}
+    killed = expected = silent_ok = silent_total = 0
+    for m in mutants.MUTANTS:
+        if only and m["name"] not in only:
+            continue
+        tmp = tempfile.mkdtemp(prefix="c10-mutant-")
+        try:
+            copy = os.path.join(tmp, "src")
+            shutil.copytree(src, copy, ignore=shutil.ignore_patterns("__pycache__", "*.pyc"))
+            why_not = mutants.apply(m, copy)
+            rec = {"name": m["name"], "expect": m["expect"], "why": m["why"]}
+            if why_not:
+                rec["skipped"] = why_not
+                out["mutants"].append(rec)
+                continue
+            res = mini_search(copy, seed + 7919, shards, runs)
+            rec.update({"runs": res["runs"], "probes": res["probes"], "diverging_runs": res["diverging_runs"],
+                        "classes": res["diverge"], "fatal": res["fatal"][:2]})
+            if res["fatal"]:
+                # a mutant that cannot even be imported is reported, not counted
+                rec["skipped"] = "mutant failed to run"
+            elif m["expect"] == "kill":
+                expected += 1
+                killed += 1 if res["diverging_runs"] else 0
+            elif m["expect"] == "silent":
+                silent_total += 1
+                silent_ok += 0 if res["diverging_runs"] else 1
+            out["mutants"].append(rec)
+        finally:
+            shutil.rmtree(tmp, ignore_errors=True)
+    out["summary"] = {"killed": killed, "expected_kills": expected, "silent_ok": silent_ok, "silent_total": silent_total,
+                      "budget_runs_per_mutant": shards * runs}
+    return out
